@@ -30,6 +30,9 @@ def run(tier, seed):
     # one module with long strings: encodings span several flushes of the PER/OER staging buffers, open-type
     # bodies (extension additions) exceed one flush
     builds += harness.make_many(tc, seeds[-1:], gen.profile(max_len=70), atoms=9, composites=9)
+    # fixed shapes: DEFAULTs of every inline kind, character string DEFAULTs included (their generated setters allocate)
+    from ..asn import shapes
+    builds += harness.make_many(tc, [seed * 1000 + 599], prof, module_fn=lambda g: shapes.build4("EQ"))
     sites = set()
     for b in builds:
         if b.exe is None:
@@ -39,7 +42,7 @@ def run(tier, seed):
         cases, meta = [], {}
         cid = 0
         for tname, t in b.mod.types.items():
-            for v in b.gen.values(t, 1 if quick else 3):
+            for v in (shapes.values4(b.mod, tname, rng, quick) if b.mod.name == "EQ" else b.gen.values(t, 1 if quick else 3)):
                 ref = harness.ref_der(b, t, v)
                 if ref is None:
                     continue
